@@ -12,7 +12,7 @@ namespace PegVerif
     * `swOK G G'`       — the optimiser's rewrite is a valid rearrangement w.r.t. sound first sets
                           (Eval-level, `C02_switch_validated`);
     * `GrammarOKS G'`   — every `parentDetect` elision of a leading test is justified by the case
-                          keys (`casesLeadOK`), no `.`/`e*` directly behind a `case`, terminals below END;
+                          keys (`casesLeadOK`; for a leading `.`: keys below END), terminals below END;
     * `LinkedOK G'`, `plainS G'` — as for the default parser. -/
 def switchSafe (G G' : Grammar) : Bool :=
   swOK G G' && GrammarOKS G' && LinkedOK G' && G'.rules.all (fun r => r.body.plainS)
